@@ -272,7 +272,7 @@ func (eval Evaluator) evaluateInPlace(level int, c0 *rlwe.Ciphertext, c1 *rlwe.E
 
 			ratioFlo := c0Scale.Div(c1Scale).Value
 
-			ratioInt, _ := ratioFlo.Int(nil)
+			ratioInt := scaleRatioToInt(&ratioFlo)
 
 			if ratioInt.Cmp(new(big.Int).SetUint64(0)) == 1 {
 
@@ -294,7 +294,7 @@ func (eval Evaluator) evaluateInPlace(level int, c0 *rlwe.Ciphertext, c1 *rlwe.E
 
 			ratioFlo := c1Scale.Div(c0Scale).Value
 
-			ratioInt, _ := ratioFlo.Int(nil)
+			ratioInt := scaleRatioToInt(&ratioFlo)
 
 			if ratioInt.Cmp(new(big.Int).SetUint64(0)) == 1 {
 
@@ -319,7 +319,7 @@ func (eval Evaluator) evaluateInPlace(level int, c0 *rlwe.Ciphertext, c1 *rlwe.E
 
 			ratioFlo := c0Scale.Div(c1Scale).Value
 
-			ratioInt, _ := ratioFlo.Int(nil)
+			ratioInt := scaleRatioToInt(&ratioFlo)
 
 			if ratioInt.Cmp(new(big.Int).SetUint64(0)) == 1 {
 				if err = eval.Mul(&rlwe.Ciphertext{Element: *c1}, ratioInt, opOut); err != nil {
@@ -335,7 +335,7 @@ func (eval Evaluator) evaluateInPlace(level int, c0 *rlwe.Ciphertext, c1 *rlwe.E
 
 			ratioFlo := c1Scale.Div(c0Scale).Value
 
-			ratioInt, _ := ratioFlo.Int(nil)
+			ratioInt := scaleRatioToInt(&ratioFlo)
 
 			if ratioInt.Cmp(new(big.Int).SetUint64(0)) == 1 {
 				// Will avoid resizing on the output
@@ -365,7 +365,7 @@ func (eval Evaluator) evaluateInPlace(level int, c0 *rlwe.Ciphertext, c1 *rlwe.E
 
 			ratioFlo := c0Scale.Div(c1Scale).Value
 
-			ratioInt, _ := ratioFlo.Int(nil)
+			ratioInt := scaleRatioToInt(&ratioFlo)
 
 			if ratioInt.Cmp(new(big.Int).SetUint64(0)) == 1 {
 				// Will avoid resizing on the output
@@ -389,7 +389,7 @@ func (eval Evaluator) evaluateInPlace(level int, c0 *rlwe.Ciphertext, c1 *rlwe.E
 
 			ratioFlo := c1Scale.Div(c0Scale).Value
 
-			ratioInt, _ := ratioFlo.Int(nil)
+			ratioInt := scaleRatioToInt(&ratioFlo)
 
 			if ratioInt.Cmp(new(big.Int).SetUint64(0)) == 1 {
 
@@ -439,6 +439,14 @@ func (eval Evaluator) evaluateInPlace(level int, c0 *rlwe.Ciphertext, c1 *rlwe.E
 	for i := maxDegree + 1; i < opOut.Degree()+1; i++ {
 		opOut.Value[i].Zero()
 	}
+}
+
+// scaleRatioToInt returns the integer closest to the ratio of two scales. Scales are 128-bit floating point values:
+// the quotient of two scales that differ by an integer factor k (e.g. a prime of the chain) can come out one unit in
+// the last place below k, and truncating it would then scale the operand by k-1 instead of k.
+func scaleRatioToInt(ratio *big.Float) (ratioInt *big.Int) {
+	ratioInt, _ = new(big.Float).Add(ratio, new(big.Float).SetFloat64(0.5)).Int(nil)
+	return
 }
 
 func (eval Evaluator) evaluateWithScalar(level int, p0 []ring.Poly, RNSReal, RNSImag ring.RNSScalar, p1 []ring.Poly, evaluate func(ring.Poly, ring.RNSScalar, ring.RNSScalar, ring.Poly)) {
@@ -1132,7 +1140,7 @@ func (eval Evaluator) mulRelinThenAdd(op0 *rlwe.Ciphertext, op1 *rlwe.Element[ri
 		if ratio.Float64() >= 2.0 {
 			// Scales by the integer part of the ratio (as for additions): a non-integer constant
 			// would additionally be scaled by the current prime(s), which resScale does not account for.
-			ratioInt, _ := ratio.Value.Int(nil)
+			ratioInt := scaleRatioToInt(&ratio.Value)
 			if err = eval.Mul(opOut, ratioInt, opOut); err != nil {
 				return fmt.Errorf("cannot MulRelinThenAdd: %w", err)
 			}
